@@ -36,7 +36,7 @@ type vhSess struct {
 	faulted  bool
 }
 
-func vhSessSetup(keepSession, rwSplit bool) *vhSess {
+func vhSessSetup(keepSession, rwSplit, readOnly bool) *vhSess {
 	s := &vhSess{led: &backend.VhLedger{}, masters: map[string]*backend.VhPool{}, slaves: map[string]*backend.VhPool{}}
 	script := func(c *backend.VhConn, op string, arg string) error {
 		if op == s.faultOp {
@@ -79,8 +79,12 @@ func vhSessSetup(keepSession, rwSplit bool) *vhSess {
 	if rwSplit {
 		split = models.ReadWriteSplit
 	}
+	rw := models.ReadWrite
+	if readOnly {
+		rw = models.ReadOnly
+	}
 	s.ns = &Namespace{name: "ns", slices: slices, defaultPhyDBs: map[string]string{"db": "db"},
-		userProperties: map[string]*UserProperty{"u": {RWFlag: models.ReadWrite, RWSplit: split}}}
+		userProperties: map[string]*UserProperty{"u": {RWFlag: rw, RWSplit: split}}}
 	nm := NewNamespaceManager()
 	nm.namespaces["ns"] = s.ns
 	m := &Manager{}
@@ -93,7 +97,7 @@ func vhSessSetup(keepSession, rwSplit bool) *vhSess {
 	s.se.user, s.se.namespace, s.se.db = "u", "ns", "db"
 	s.se.contextNamespace = s.ns
 	s.se.keepSession = keepSession
-	s.se.userPriv = models.ReadWrite
+	s.se.userPriv = rw
 	s.cc.executor = s.se
 	return s
 }
@@ -142,8 +146,9 @@ func vhCount(log []string, op string) int {
 
 // vhSessRun drives k commands and checks the three properties' oracles that apply to the mode.
 func vhSessRun(prop string, keepSession bool, k int, withFaults bool) {
-	rwSplit := vs.Choice("rwSplit", 2) == 1
-	s := vhSessSetup(keepSession, rwSplit)
+	userKind := vs.Choice("user", 3) // read/write, read/write with read/write splitting, read-only
+	rwSplit, readOnly := userKind >= 1, userKind == 2
+	s := vhSessSetup(keepSession, rwSplit, readOnly)
 	s.faultOp = ""
 	if withFaults {
 		ops := []string{"", "execute", "begin", "commit", "rollback", "autocommit", "syncsessionvariables", "get"}
@@ -153,6 +158,9 @@ func vhSessRun(prop string, keepSession bool, k int, withFaults bool) {
 		} else if s.faultOp != "" {
 			s.faultNth = vs.Choice("faultNth", vs.Pick(1, 2))
 			s.closes = vs.Choice("faultClosesConn", 2) == 1
+			if s.faultOp == "autocommit" {
+				s.closes = true // SET autocommit cannot fail on a healthy connection: the fault is a broken connection
+			}
 		}
 	}
 	vs.TagB("fault", s.faultOp != "")
@@ -285,7 +293,7 @@ func vhSessRun(prop string, keepSession bool, k int, withFaults bool) {
 	vs.Cover(prop + "/session-done")
 }
 
-//verif:harness prop=C18 bounds="one session (no keep-session) of a user with or without read/write splitting on a namespace with two slices (scripted master and replica pools, no faults): every sequence of k=3 (quick) / 4 (thorough) commands from {BEGIN, COMMIT, ROLLBACK, SET autocommit=0, SET autocommit=1, unsharded write on slice 0, unsharded read on slice 0, sharded write on both slices}, then disconnect; driven through the real handleBegin / handleCommit / handleRollback / handleSetAutoCommit / ExecuteSQL / ExecuteSQLs"
+//verif:harness prop=C18 bounds="one session (no keep-session) of a read/write user, a read/write-splitting user or a read-only user on a namespace with two slices (scripted master and replica pools, no faults): every sequence of k=3 (quick) / 4 (thorough) commands from {BEGIN, COMMIT, ROLLBACK, SET autocommit=0, SET autocommit=1, unsharded write on slice 0, unsharded read on slice 0, sharded write on both slices}, then disconnect; driven through the real handleBegin / handleCommit / handleRollback / handleSetAutoCommit / ExecuteSQL / ExecuteSQLs"
 //verif:mock (*github.com/XiaoMi/Gaea/proxy/server.Manager).RecordBackendSQLMetrics vhSessRecordMetrics
 func Harness_C18_TransactionConnections() {
 	vhSessRun("C18", false, vs.Pick(3, 4), false)
